@@ -108,6 +108,11 @@ def run_case(ctx, mon, cfg_id, terms, prods, inputs_spec=None, rng=None, any_spe
         except llparser.GrammarError as err:
             ctx.count("ctor_grammar_error(judged by C03)")
             ctor_error = (smart, type(err).__name__, str(err)[:150])
+        except Exception as err:
+            # (neither a verdict on the grammar nor an assertion about the domain: the grammar cannot be used)
+            ctx.violation("ll1-grammar-rejected-by-constructor",
+                          {"smart": smart, "type": type(err).__name__, "msg": str(err)[:150]}, base_case)
+            return None
     if parsers and cfg.kwargs.get('span_matchers'):
         llmon.build_decoy(cfg)       # (another parser with other multi-line tokens is built before these are used)
     if len(parsers) == 1 and ctor_error is not None:
@@ -292,6 +297,14 @@ def run_shard(ctx):
                 sequence_case(ctx, rng)
             cfg_id, terms, prods, kind = make_case(rng)
             ctx.count(f"generator_{kind}")
+            if i % 12 == 5 and 'TODO' not in prods:
+                # a symbol that is declared but has no alternative yet (nothing refers to it, or one alternative that
+                # can never match does): the language stays what it is
+                prods['TODO'] = []
+                if i % 24 == 5:
+                    nt = sorted(n for n in prods if prods[n])[0]
+                    prods[nt] = list(prods[nt]) + [('TODO', terms[0])]
+                ctx.count("grammars_with_a_symbol_without_alternatives")
             any_spec = None
             if rng.random() < 0.1 and "SPACE" not in llmon.TOKCFGS[cfg_id].terminals:
                 # one symbol gets the pseudo production AnyTokenExcept(...) (`prods` holds what it stands for)
